@@ -553,11 +553,19 @@ fn candidates(sc: &Scenario) -> Vec<Scenario> {
 pub fn shrink(sc: &Scenario, still_fails: &dyn Fn(&Scenario) -> bool, budget: usize) -> (Scenario, usize) {
     let mut best = sc.clone();
     let mut spent = 0;
+    // Minimisation is a service, not part of the decision: besides the execution budget it gets a
+    // wall-clock limit (scenarios with hundreds of long examples make every round of candidates
+    // expensive); whatever it returns is confirmed from its replay file in a fresh process.
+    let t0 = std::time::Instant::now();
+    let limit = std::time::Duration::from_secs(if budget > 2000 { 180 } else { 45 });
     loop {
         let mut improved = false;
         let size = best.size();
+        if t0.elapsed() > limit {
+            return (best, spent);
+        }
         for cand in candidates(&best) {
-            if spent >= budget {
+            if spent >= budget || t0.elapsed() > limit {
                 return (best, spent);
             }
             if cand.size() >= size {
